@@ -15,8 +15,8 @@ Method.
   register while the code of the state runs; `srq` = what every stacked state may rely on after a pop), a
   Bool check of one leaf of the table against a certificate by abstract execution (`checkLeaf`,
   `checkCode`), and COMPUTES the certificate `cert` of the current table by closures / fixpoints over
-  `St.all` and `code` (`pairsL`, `ntM`, `rqX`, `oeL`).
-* the table facts below (`table_init`, `table_safe`) evaluate these computations and the check by
+  `St.all` and `code` (`pairsL`, `ntM`, `rqX`, `oeM`).
+* the table facts below (`table_facts`) evaluate these computations and the check by
   `decide +kernel` against the regenerated table on every run.  They fail when the Go code is changed so
   that a fault becomes possible, and survive edits that keep it impossible.
 * `Proofs/ScanSafeRun.lean` proves, for ANY certificate that passes the check, the run-level invariant
@@ -31,12 +31,15 @@ theorem mem_all (st : St) : st ∈ St.all := by
 
 /-! ## table facts (re-checked against the regenerated table on every run) -/
 
-/-- the certificate computed from the table asks nothing of the initial configuration: `stateRoot` does not
-pop before pushing, has no outstanding event, and relies on no lower bound of `curIndex` -/
-theorem table_init : checkInit cert = true := by decide +kernel
+/-- (1) the certificate computed from the table asks nothing of the initial configuration: `stateRoot` does
+not pop before pushing, has no outstanding event, and relies on no lower bound of `curIndex`;
+(2) every leaf of every state function passes the abstract execution against the computed certificate -/
+theorem table_facts :
+    checkInit cert = true ∧ ∀ st ∈ St.all, checkCode cert st (code st) = true := by decide +kernel
 
-/-- every leaf of every state function passes the abstract execution against the computed certificate -/
-theorem table_safe : ∀ st ∈ St.all, checkCode cert st (code st) = true := by decide +kernel
+theorem table_init : checkInit cert = true := table_facts.1
+
+theorem table_safe : ∀ st ∈ St.all, checkCode cert st (code st) = true := table_facts.2
 
 theorem cert_valid : Valid cert := ⟨table_init, fun st => table_safe st (mem_all st)⟩
 
